@@ -5,6 +5,8 @@ import (
 	"encoding/json"
 	"fmt"
 	"io"
+	"strconv"
+	"unicode"
 
 	"github.com/buger/jsonparser"
 
@@ -122,6 +124,47 @@ func (d *Document) ValueContainsVariable(value Value) bool {
 	}
 }
 
+// writeStringContentAsJSON writes the content of a (non block) string literal as the content of a JSON string.
+// The escape sequences of the two syntaxes are the same, with two exceptions: a GraphQL string may contain a raw
+// horizontal tab (JSON has to escape every control character), and it may name a code point as \u{1F600}.
+func writeStringContentAsJSON(buf *bytes.Buffer, content []byte) {
+	for i := 0; i < len(content); i++ {
+		b := content[i]
+		switch {
+		case b == '\\' && i+1 < len(content):
+			if content[i+1] == 'u' && i+2 < len(content) && content[i+2] == '{' {
+				if end := bytes.IndexByte(content[i+3:], '}'); end > 0 {
+					if r, err := strconv.ParseUint(string(content[i+3:i+3+end]), 16, 32); err == nil && r <= unicode.MaxRune {
+						writeRuneAsJSON(buf, rune(r))
+						i += 3 + end
+						continue
+					}
+				}
+			}
+			// any other escape sequence is spelled the same in JSON; keep its two bytes together
+			buf.WriteByte(b)
+			buf.WriteByte(content[i+1])
+			i++
+		case b < 0x20:
+			writeRuneAsJSON(buf, rune(b))
+		default:
+			buf.WriteByte(b)
+		}
+	}
+}
+
+func writeRuneAsJSON(buf *bytes.Buffer, r rune) {
+	switch {
+	case r == '"' || r == '\\':
+		buf.WriteByte('\\')
+		buf.WriteByte(byte(r))
+	case r < 0x20:
+		_, _ = fmt.Fprintf(buf, "\\u%04x", r)
+	default:
+		buf.WriteRune(r)
+	}
+}
+
 func (d *Document) writeJSONValue(buf *bytes.Buffer, value Value) error {
 	switch value.Kind {
 	case ValueKindNull:
@@ -159,7 +202,9 @@ func (d *Document) writeJSONValue(buf *bytes.Buffer, value Value) error {
 			// Remove the extra newline that Encode adds
 			buf.Truncate(buf.Len() - 1)
 		} else {
-			buf.Write(quotes.WrapBytes(d.StringValueContentBytes(value.Ref)))
+			buf.WriteByte('"')
+			writeStringContentAsJSON(buf, d.StringValueContentBytes(value.Ref))
+			buf.WriteByte('"')
 		}
 	case ValueKindList:
 		buf.WriteByte(literal.LBRACK_BYTE)
